@@ -202,8 +202,11 @@ func VerifParseMeaning() {
 	want := vDenotes(e, val)
 
 	q := vWrite(e, 0, false)
-	if rt.Choose(2) == 1 {
+	switch rt.Choose(3) {
+	case 1:
 		q = "(" + q + ")"
+	case 2:
+		q += " | fields message" // a pipe after the filter does not change what the filter selects
 	}
 	parsed, err := ParseSeqQL(q, mapping)
 	rt.Assert(err == nil, "a well-formed expression parses (SeqQL)")
